@@ -9,6 +9,7 @@ schedules the others.  The interpreter is therefore written in direct style.
 from __future__ import annotations
 
 import ast
+import collections
 import builtins as _builtins
 import enum
 import sys
@@ -119,6 +120,8 @@ def zint(v):
         return z3.IntVal(1 if v else 0)
     if isinstance(v, int):
         return z3.IntVal(int(v))
+    if isinstance(v, Unknown):
+        raise Unsupported(f'integer value of an uninterpreted value needed as a term: {v!r}')  # undecided, not an engine failure
     raise EngineError(f'not an int: {v!r}')
 
 
@@ -144,6 +147,8 @@ def zbytes(v):
         return v.t
     if isinstance(v, (bytes, bytearray)):
         return bytes_lit(bytes(v))
+    if isinstance(v, Unknown):
+        raise Unsupported(f'bytes value of an uninterpreted value needed as a term: {v!r}')  # undecided, not an engine failure
     raise EngineError(f'not bytes: {v!r}')
 
 
@@ -1851,8 +1856,8 @@ class Path:
             raise Unsupported(f'truth of {v!r}: {e}')
 
     def length(self, v):
-        if isinstance(v, (bytes, bytearray, str, tuple, list, dict, frozenset, set, range)):
-            return len(v)
+        if isinstance(v, (bytes, bytearray, str, tuple, list, dict, frozenset, set, range, collections.deque)):
+            return len(v)  # (a reflected native container, e.g. a class-level default: concrete, like a native list)
         if isinstance(v, Sym):
             if v.k == 'bytes' or (isinstance(v.k, tuple) and v.k[0] == 'seq'):
                 return mk_int(z3.Length(v.t))
